@@ -231,7 +231,7 @@ func c12Recorders(c *Ctx) {
 				if recordSite(in) {
 					return
 				}
-				if ret, ok := in.(*ssa.Return); ok {
+				if ret, ok := in.(*ssa.Return); ok && isReturn(in) {
 					if !skipOK {
 						bad, why = ret, via
 					}
